@@ -34,8 +34,15 @@ XAdd(a, b) ==
       [] XIsInf(a) -> a
       [] OTHER -> b
 XSub(a, b) == XAdd(a, XNeg(b))
+\* |x| >= SqBig stands for "x * x overflows" (1.3e154 for f64, 1.8e19 for f32)
+SqBig == <<4096, 1>>
+XIsSqBig(a) == XIsQ(a) /\ (IF a[2][1] < 0 THEN -a[2][1] ELSE a[2][1]) \div a[2][2] >= SqBig[1]    \* (no cross-multiplication: TLC's integers)
+\* 0 < |x| <= 1/SqBig stands for "x * x underflows to 0"
+XIsSqTiny(a) == XIsQ(a) /\ ~QIsZero(a[2]) /\ a[2][2] \div (IF a[2][1] < 0 THEN -a[2][1] ELSE a[2][1]) >= SqBig[1]
 XMul(a, b) ==
     CASE XIsNaN(a) \/ XIsNaN(b) -> XNaN
+      [] XIsSqBig(a) /\ XIsSqBig(b) -> XInf(XSgn(a) * XSgn(b))                  \* overflow
+      [] XIsSqTiny(a) /\ XIsSqTiny(b) -> X0                                     \* underflow
       [] XIsQ(a) /\ XIsQ(b) -> XQ(QMul(a[2], b[2]))
       [] XIsZeroV(a) \/ XIsZeroV(b) -> XNaN                                      \* 0 * inf
       [] OTHER -> XInf(XSgn(a) * XSgn(b))
@@ -72,6 +79,8 @@ XFun(fn, a) ==
       [] XIsHuge(a) /\ fn = "sinh" -> XInf(QSign(a[2]))
       [] XIsHuge(a) /\ fn = "tanh" -> XQ(QInt(QSign(a[2])))
       [] XIsHuge(a) /\ fn = "exp_m1" -> IF QSign(a[2]) > 0 THEN XInf(1) ELSE XQ(QInt(-1))
+      \* a finite irrational value (pi/2, ln 2x): the real part is not compared at these points
+      [] XIsSqBig(a) /\ fn \in {"atan", "asinh", "acosh"} -> XQ(QInt(XSgn(a)))
       [] fn \in {"sin", "sinh", "asin", "atan", "asinh", "atanh", "exp_m1", "ln_1p", "tan", "tanh"} /\ XIsZeroV(a) -> X0
       [] fn \in {"cos", "cosh", "exp", "exp2"} /\ XIsZeroV(a) -> X1
       [] fn \in {"ln", "log2", "log10"} /\ a = X1 -> X0
